@@ -474,3 +474,388 @@ Proof.
   destruct B as [B1 B2]. split; [exact B1|]. intros r. apply B2.
 Qed.
 End Blocks.
+
+(* ---------- the message: first line and remaining lines ---------- *)
+Lemma forallb_rev {A} (f : A -> bool) l : forallb f (rev l) = forallb f l.
+Proof.
+  induction l as [|a l IH]; [reflexivity|]. cbn [rev forallb]. rewrite forallb_app, IH. cbn [forallb].
+  destruct (f a), (forallb f l); reflexivity.
+Qed.
+
+Lemma split_aux_all (f : byte -> bool) s : forall cur, forallb f cur = true -> forallb f s = true ->
+  forall l, In l (split_lf_aux cur s) -> forallb f l = true.
+Proof.
+  induction s as [|b t IH]; intros cur Hc Hs l Hl; cbn [split_lf_aux] in Hl.
+  - destruct Hl as [<-|[]]. rewrite forallb_rev. exact Hc.
+  - cbn [forallb] in Hs. apply andb_true_iff in Hs. destruct Hs as [Hb Ht].
+    destruct (is_lf b).
+    + destruct Hl as [<-|Hl]; [rewrite forallb_rev; exact Hc|]. exact (IH [] eq_refl Ht l Hl).
+    + apply (IH (b :: cur)); [cbn [forallb]; rewrite Hb, Hc; reflexivity|exact Ht|exact Hl].
+Qed.
+Lemma split_all (f : byte -> bool) s : forallb f s = true -> forall l, In l (split_lf s) -> forallb f l = true.
+Proof. intros H. exact (split_aux_all f s [] eq_refl H). Qed.
+
+Definition nolf (s : bytes) : bool := forallb (fun b => negb (is_lf b)) s.
+Lemma split_aux_nolf s : forall cur, nolf cur = true -> forall l, In l (split_lf_aux cur s) -> nolf l = true.
+Proof.
+  induction s as [|b t IH]; intros cur Hc l Hl; cbn [split_lf_aux] in Hl.
+  - destruct Hl as [<-|[]]. unfold nolf. rewrite forallb_rev. exact Hc.
+  - destruct (is_lf b) eqn:E.
+    + destruct Hl as [<-|Hl]; [unfold nolf; rewrite forallb_rev; exact Hc|]. exact (IH [] eq_refl l Hl).
+    + apply (IH (b :: cur)); [|exact Hl]. unfold nolf in *. cbn [forallb]. rewrite E, Hc. reflexivity.
+Qed.
+Lemma split_nolf s : forall l, In l (split_lf s) -> nolf l = true.
+Proof. exact (split_aux_nolf s [] eq_refl). Qed.
+
+Lemma text_ok_of s : esc_free s = true -> nolf s = true -> text_ok s = true.
+Proof.
+  unfold esc_free, nolf, text_ok. rewrite !forallb_forall. intros H1 H2 b Hb. rewrite (H1 b Hb), (H2 b Hb). reflexivity.
+Qed.
+
+Lemma drop_while_all {A} (f g : A -> bool) l : forallb f l = true -> forallb f (drop_while g l) = true.
+Proof.
+  induction l as [|a l IH]; intros H; [reflexivity|]. cbn [drop_while]. destruct (g a); [|exact H].
+  cbn [forallb] in H. apply andb_true_iff in H. apply IH. tauto.
+Qed.
+Lemma trim_all (f : byte -> bool) s : forallb f s = true -> forallb f (trim_right_crlf s) = true.
+Proof. intros H. unfold trim_right_crlf. rewrite forallb_rev. apply drop_while_all. rewrite forallb_rev. exact H. Qed.
+Lemma drop_while_head {A} (f : A -> bool) l b t : drop_while f l = b :: t -> f b = false.
+Proof.
+  induction l as [|a l IH]; intros H; [discriminate|]. cbn [drop_while] in H. destruct (f a) eqn:E; [exact (IH H)|].
+  injection H as -> _. exact E.
+Qed.
+
+Lemma join_all (f : byte -> bool) sep l : forallb f sep = true -> (forall x, In x l -> forallb f x = true) ->
+  forallb f (join_with sep l) = true.
+Proof.
+  intros Hs. induction l as [|x t IH]; intros H; [reflexivity|].
+  destruct t as [|y t']; [apply H; left; reflexivity|].
+  change (join_with sep (x :: y :: t')) with (x ++ sep ++ join_with sep (y :: t')).
+  rewrite !forallb_app, Hs, (H x (or_introl eq_refl)), IH; [reflexivity|].
+  intros z Hz. apply H. right. exact Hz.
+Qed.
+
+(* splitFirstAndRestLines in terms of the lines of the body *)
+Lemma split_first_rest_eq msg :
+  split_first_rest msg =
+  (hd [] (split_lf (fst (msg_body msg))), join_with [x0a] (tl (split_lf (fst (msg_body msg)))), snd (msg_body msg)).
+Proof.
+  destruct msg as [|b t]; [reflexivity|].
+  unfold split_first_rest, msg_body. cbv zeta. cbn [fst snd].
+  destruct (split_lf _) as [|first [|x rest]]; reflexivity.
+Qed.
+
+Lemma body_all (f : byte -> bool) msg : forallb f msg = true -> forallb f (fst (msg_body msg)) = true.
+Proof.
+  intros H. unfold msg_body. cbv zeta. cbn [fst]. destruct (match rev msg with b :: _ => is_lf b | [] => false end); [|exact H].
+  apply trim_all. exact H.
+Qed.
+
+(* the body never ends with a line feed *)
+Lemma body_no_final_lf msg s' : fst (msg_body msg) <> s' ++ [x0a].
+Proof.
+  unfold msg_body. cbv zeta. cbn [fst]. destruct (match rev msg with b :: _ => is_lf b | [] => false end) eqn:E; intros H.
+  - unfold trim_right_crlf in H. apply (f_equal (@rev byte)) in H. rewrite rev_involutive, rev_app_distr in H. cbn [rev app] in H.
+    apply drop_while_head in H. discriminate.
+  - rewrite H in E. rewrite rev_app_distr in E. cbn [rev app] in E. discriminate.
+Qed.
+
+Lemma split_aux_nonempty cur s : split_lf_aux cur s <> [].
+Proof. revert cur. induction s as [|b t IH]; intros cur; cbn [split_lf_aux]; [discriminate|]. destruct (is_lf b); [discriminate|apply IH]. Qed.
+
+Lemma last_cons_nonempty {A} (x : A) l d : l <> [] -> last (x :: l) d = last l d.
+Proof. destruct l; [congruence|reflexivity]. Qed.
+
+Lemma split_aux_last_empty s : forall cur, last (split_lf_aux cur s) [x00] = [] ->
+  (s = [] /\ cur = []) \/ (exists s', s = s' ++ [x0a]).
+Proof.
+  induction s as [|b t IH]; intros cur H; cbn [split_lf_aux] in H.
+  - left. split; [reflexivity|]. cbn [last] in H. destruct cur as [|c cur]; [reflexivity|].
+    cbn [rev] in H. destruct (rev cur); discriminate.
+  - right. destruct (is_lf b) eqn:E.
+    + rewrite last_cons_nonempty in H by apply split_aux_nonempty.
+      assert (Hb : b = x0a). { unfold is_lf in E. apply bz_inj. change (bz x0a) with 10. lia. }
+      subst b. destruct (IH [] H) as [[-> _]|[s' ->]]; [exists []; reflexivity|exists (x0a :: s'); reflexivity].
+    + destruct (IH (b :: cur) H) as [[_ Hc]|[s' ->]]; [discriminate|exists (b :: s'); reflexivity].
+Qed.
+
+(* with more than one line, the last line of the body is not empty *)
+Lemma body_rest_nonempty msg first x : split_lf (fst (msg_body msg)) = [first; x] -> x <> [].
+Proof.
+  intros H Hx. subst x.
+  destruct (split_aux_last_empty (fst (msg_body msg)) []) as [[Hb _]|[s' Hb]].
+  - unfold split_lf in H. rewrite H. reflexivity.
+  - rewrite Hb in H. discriminate.
+  - exact (body_no_final_lf msg s' Hb).
+Qed.
+
+(* splitting what was joined *)
+Lemma split_aux_app x : forall cur r, nolf x = true -> split_lf_aux cur (x ++ r) = split_lf_aux (rev x ++ cur) r.
+Proof.
+  induction x as [|b x IH]; intros cur r H; [reflexivity|].
+  unfold nolf in H. cbn [forallb] in H. apply andb_true_iff in H. destruct H as [Hb Hx].
+  cbn [app split_lf_aux]. destruct (is_lf b); [discriminate|]. rewrite IH by exact Hx.
+  cbn [rev]. rewrite <- app_assoc. reflexivity.
+Qed.
+Lemma split_single x : nolf x = true -> split_lf x = [x].
+Proof.
+  intros H. unfold split_lf. rewrite <- (app_nil_r x) at 1. rewrite split_aux_app by exact H.
+  cbn [split_lf_aux]. rewrite app_nil_r, rev_involutive. reflexivity.
+Qed.
+Lemma split_cons x r : nolf x = true -> split_lf (x ++ x0a :: r) = x :: split_lf r.
+Proof.
+  intros H. unfold split_lf. rewrite split_aux_app by exact H. cbn [split_lf_aux].
+  change (is_lf x0a) with true. cbv iota. rewrite app_nil_r, rev_involutive. reflexivity.
+Qed.
+Lemma split_join ls : ls <> [] -> (forall l, In l ls -> nolf l = true) -> split_lf (join_with [x0a] ls) = ls.
+Proof.
+  induction ls as [|x t IH]; intros Hne H; [congruence|].
+  destruct t as [|y t']; [apply split_single; apply H; left; reflexivity|].
+  change (join_with [x0a] (x :: y :: t')) with (x ++ x0a :: join_with [x0a] (y :: t')).
+  rewrite split_cons by (apply H; left; reflexivity). f_equal. apply IH; [discriminate|].
+  intros l Hl. apply H. right. exact Hl.
+Qed.
+Lemma nolf_existsb x : nolf x = true -> existsb is_lf x = false.
+Proof.
+  induction x as [|b x IH]; intros H; [reflexivity|]. unfold nolf in H. cbn [forallb] in H.
+  apply andb_true_iff in H. destruct H as [Hb Hx]. cbn [existsb]. rewrite (IH Hx). destruct (is_lf b); [discriminate|reflexivity].
+Qed.
+
+(* ---------- the remaining lines ---------- *)
+Definition lead4 : bytes := [x20; x20; x20; x20].
+
+Section Rest.
+Variable clr bg : Z.
+Hypothesis Hclr : 0 <= clr.
+Hypothesis Hbg : -1 <= bg.
+
+Definition wrap_line (l : bytes) : bytes := wrap_color_and_bg (lead4 ++ l) clr bg.
+
+Lemma wrap_line_blk l : text_ok l = true -> blk_off (wrap_line l) (lead4 ++ l).
+Proof. intros H. apply blk_off_wrap; [exact Hclr|exact Hbg|]. rewrite text_ok_app, H. reflexivity. Qed.
+
+Lemma scan_lf r : sgr_scan false (x0a :: r) = sgr_scan false r.
+Proof. reflexivity. Qed.
+Lemma strip_lf r : strip_sgr (x0a :: r) = x0a :: strip_sgr r.
+Proof. reflexivity. Qed.
+
+Lemma joined_lines ls : (forall l, In l ls -> text_ok l = true) -> forall r,
+  strip_sgr (join_with [x0a] (map wrap_line ls) ++ r) = join_with [x0a] (map (app lead4) ls) ++ strip_sgr r
+  /\ sgr_scan false (join_with [x0a] (map wrap_line ls) ++ r) = sgr_scan false r.
+Proof.
+  induction ls as [|x t IH]; intros H r; [split; reflexivity|].
+  pose proof (wrap_line_blk x (H x (or_introl eq_refl))) as [B1 B2].
+  destruct t as [|y t'].
+  - cbn [map join_with]. split; [apply B1|apply B2].
+  - change (join_with [x0a] (map wrap_line (x :: y :: t'))) with (wrap_line x ++ [x0a] ++ join_with [x0a] (map wrap_line (y :: t'))).
+    change (join_with [x0a] (map (app lead4) (x :: y :: t'))) with ((lead4 ++ x) ++ [x0a] ++ join_with [x0a] (map (app lead4) (y :: t'))).
+    destruct (IH (fun l Hl => H l (or_intror Hl)) r) as [I1 I2].
+    rewrite <- !app_assoc. split.
+    + rewrite B1. cbn [app]. rewrite strip_lf, I1. rewrite <- !app_assoc. reflexivity.
+    + rewrite B2. cbn [app]. rewrite scan_lf. exact I2.
+Qed.
+
+Lemma join_as_concat (f : bytes -> bytes) ls : ls <> [] ->
+  x0a :: join_with [x0a] (map f ls) = concat (map (fun l => x0a :: f l) ls).
+Proof.
+  induction ls as [|x t IH]; intros Hne; [congruence|].
+  destruct t as [|y t']; [cbn [map join_with concat]; rewrite app_nil_r; reflexivity|].
+  change (join_with [x0a] (map f (x :: y :: t'))) with (f x ++ x0a :: join_with [x0a] (map f (y :: t'))).
+  rewrite IH by discriminate. reflexivity.
+Qed.
+
+(* the part of the record after the caller, for the lines rl of the body after the first *)
+Definition rest_part (rl : list bytes) (eol : bool) : bytes :=
+  match join_with [x0a] rl with
+  | [] => []
+  | rest => x0a :: pad_rest rest clr bg ++ (if eol then [x0a] else [])
+  end.
+
+Lemma rest_part_nonempty rl eol : join_with [x0a] rl <> [] ->
+  rest_part rl eol = x0a :: pad_rest (join_with [x0a] rl) clr bg ++ (if eol then [x0a] else []).
+Proof. unfold rest_part. destruct (join_with [x0a] rl); [congruence|reflexivity]. Qed.
+
+Definition tail_lf (eol : bool) : bytes := (if eol then [x0a] else []) ++ [x0a].
+Lemma tail_scan eol : sgr_scan false (tail_lf eol) = Some false.
+Proof. destruct eol; reflexivity. Qed.
+Lemma tail_strip eol : strip_sgr (tail_lf eol) = tail_lf eol.
+Proof. destruct eol; reflexivity. Qed.
+
+Lemma rest_part_scan rl eol : (forall l, In l rl -> text_ok l = true) ->
+  sgr_scan false (rest_part rl eol ++ [x0a]) = Some false.
+Proof.
+  intros H.
+  assert (Hj : esc_free (join_with [x0a] rl) = true).
+  { apply join_all; [reflexivity|]. intros x Hx. apply text_ok_esc_free. exact (H x Hx). }
+  destruct (join_with [x0a] rl) as [|b rest] eqn:E.
+  { unfold rest_part. rewrite E. reflexivity. }
+  rewrite rest_part_nonempty by (rewrite E; discriminate). rewrite E.
+  cbn [app]. rewrite scan_lf. rewrite <- app_assoc. fold (tail_lf eol). unfold pad_rest.
+  destruct (existsb is_lf (b :: rest)) eqn:Ex.
+  - assert (Hl : forall l, In l (split_lf (b :: rest)) -> text_ok l = true).
+    { intros l Hl. apply text_ok_of; [exact (split_all _ _ Hj l Hl)|exact (split_nolf _ l Hl)]. }
+    change (map _ (split_lf (b :: rest))) with (map wrap_line (split_lf (b :: rest))).
+    destruct (joined_lines _ Hl (tail_lf eol)) as [_ I2]. rewrite I2. apply tail_scan.
+  - rewrite <- app_assoc. rewrite (scan_text_off [x20; x20; x20; x20]) by reflexivity.
+    rewrite scan_text_off by exact Hj. apply tail_scan.
+Qed.
+
+Lemma rest_part_strip msg first rl eol : split_lf (fst (msg_body msg)) = first :: rl ->
+  (forall l, In l rl -> esc_free l = true) ->
+  strip_sgr (rest_part rl eol ++ [x0a]) = lay_rest rl eol ++ [x0a].
+Proof.
+  intros Hs He.
+  assert (Hn : forall l, In l rl -> nolf l = true).
+  { intros l Hl. apply (split_nolf (fst (msg_body msg))). rewrite Hs. right. exact Hl. }
+  assert (Ht : forall l, In l rl -> text_ok l = true) by (intros l Hl; apply text_ok_of; [exact (He l Hl)|exact (Hn l Hl)]).
+  destruct rl as [|x [|y t]].
+  - reflexivity.
+  - (* one remaining line: not empty, no colour at all *)
+    pose proof (body_rest_nonempty msg first x Hs) as Hx.
+    rewrite rest_part_nonempty by exact Hx. cbn [join_with]. unfold pad_rest, lay_rest.
+    rewrite (nolf_existsb _ (Hn _ (or_introl eq_refl))).
+    cbn [map concat]. rewrite app_nil_r. cbn [app]. rewrite strip_lf. unfold indent4.
+    rewrite <- !app_assoc. fold (tail_lf eol).
+    rewrite !strip_cons by reflexivity. rewrite strip_text by (apply He; left; reflexivity).
+    rewrite tail_strip. reflexivity.
+  - (* several remaining lines: each in its own colour span *)
+    assert (Hj : join_with [x0a] (x :: y :: t) = x ++ x0a :: join_with [x0a] (y :: t)) by reflexivity.
+    rewrite rest_part_nonempty by (rewrite Hj; destruct x; discriminate).
+    unfold pad_rest, lay_rest.
+    assert (Ex : existsb is_lf (join_with [x0a] (x :: y :: t)) = true).
+    { rewrite Hj. rewrite existsb_app. cbn [existsb]. change (is_lf x0a) with true. rewrite orb_true_r. reflexivity. }
+    rewrite Ex. rewrite split_join by (try discriminate; exact Hn).
+    change (map _ (x :: y :: t)) with (map wrap_line (x :: y :: t)) at 1.
+    cbn [app]. rewrite strip_lf. rewrite <- !app_assoc. fold (tail_lf eol).
+    destruct (joined_lines _ Ht (tail_lf eol)) as [I1 _]. rewrite I1, tail_strip.
+    change (x0a :: ?u ++ ?v) with ((x0a :: u) ++ v). rewrite join_as_concat by discriminate.
+    reflexivity.
+Qed.
+End Rest.
+
+(* ---------- the whole record ---------- *)
+Lemma right_pad_eq s w : right_pad s w = pad_to s w.
+Proof. unfold right_pad, pad_to. f_equal. f_equal. lia. Qed.
+Lemma pad_to_ok s w : text_ok s = true -> text_ok (pad_to s w) = true.
+Proof. intros H. unfold pad_to. rewrite text_ok_app, H, text_ok_repeat_blank. reflexivity. Qed.
+
+Section Main.
+Variable isprint : Z -> bool.
+Hypothesis isprint_ascii : forall r, 0 <= r < 128 -> isprint r = (32 <=? r) && (r <? 127).
+Variable g : registry.
+
+Lemma level_colors_ok lvl : colors_ok g = true ->
+  0 <= fst (level_colors g lvl) /\ -1 <= snd (level_colors g lvl).
+Proof.
+  intros H. unfold level_colors. destruct (lookupZ (r_colors g) lvl) as [l|] eqn:E.
+  - apply lookupZ_in in E. unfold colors_ok in H. rewrite forallb_forall in H. specialize (H _ E). cbn [snd] in H.
+    destruct l as [|c [|b l']]; cbn [fst snd]; unfold clr_basic, clr_none; try lia.
+    cbn [forallb] in H. lia.
+  - cbn [fst snd]. unfold clr_basic, clr_none. lia.
+Qed.
+
+Definition color_record (c : ecfg) (msg : bytes) (attrs : list attr) : bytes :=
+  let clr := fst (level_colors g (e_lvl c)) in
+  let bg := snd (level_colors g (e_lvl c)) in
+  let lines := split_lf (fst (msg_body msg)) in
+  echo_color clr_timestamp ++ e_ts c ++ [x7c; x20]
+  ++ (match e_name c with [] => [] | nm => lib_wrap_color_bg clr_logger_name clr_none nm ++ [x20] end)
+  ++ lib_wrap_color_bg clr bg (x5b :: tag_of g (e_tagw c) (e_lvl c) ++ [x5d]) ++ [x20]
+  ++ wrap_color_and_bg (right_pad (hd [] lines) (e_minw c)) clr bg
+  ++ ser_top isprint ShColor clr bg attrs
+  ++ caller_part isprint ShColor (e_caller c)
+  ++ rest_part clr bg (tl lines) (snd (msg_body msg)) ++ [x0a].
+
+(* what encode does in colour mode *)
+Lemma encode_color c msg attrs : e_mode c = ShColor ->
+  encode isprint g c msg attrs =
+  if (e_lvl c =? lv_always) && all_blank msg then Some [x0a]
+  else if has_markup (right_pad (hd [] (split_lf (fst (msg_body msg)))) (e_minw c)) then None
+  else Some (color_record c msg attrs).
+Proof.
+  intros Hm. unfold encode. rewrite Hm. destruct ((e_lvl c =? lv_always) && all_blank msg); [reflexivity|].
+  unfold color_record. destruct (level_colors g (e_lvl c)) as [clr bg]. rewrite split_first_rest_eq.
+  cbn [fst snd]. destruct (has_markup _); [reflexivity|]. do 9 f_equal.
+  unfold rest_part. destruct (join_with [x0a] _); reflexivity.
+Qed.
+
+Variable c : ecfg.
+Variable msg : bytes.
+Variable attrs : list attr.
+Hypothesis Hcolors : colors_ok g = true.
+Hypothesis Hts : text_ok (e_ts c) = true.
+Hypothesis Hname : text_ok (e_name c) = true.
+Hypothesis Hcaller : caller_texts_ok (e_caller c) = true.
+Hypothesis Htag : text_ok (tag_of g (e_tagw c) (e_lvl c)) = true.
+Hypothesis Hattrs : attrs_ok (norm_attrs attrs) = true.
+Hypothesis Hmsg : esc_free msg = true.
+
+Lemma lines_esc_free l : In l (split_lf (fst (msg_body msg))) -> esc_free l = true.
+Proof. apply split_all. apply body_all. exact Hmsg. Qed.
+Lemma lines_text_ok l : In l (split_lf (fst (msg_body msg))) -> text_ok l = true.
+Proof. intros H. apply text_ok_of; [exact (lines_esc_free l H)|exact (split_nolf _ l H)]. Qed.
+Lemma lines_cases : exists first rl, split_lf (fst (msg_body msg)) = first :: rl.
+Proof.
+  destruct (split_lf (fst (msg_body msg))) as [|first rl] eqn:E; [|exists first, rl; reflexivity].
+  exfalso. exact (split_aux_nonempty [] _ E).
+Qed.
+
+Lemma name_blk : blk (match e_name c with [] => [] | nm => lib_wrap_color_bg clr_logger_name clr_none nm ++ [x20] end)
+                     (match e_name c with [] => [] | nm => nm ++ [x20] end).
+Proof.
+  destruct (e_name c) as [|b nm]; [exact blk_nil|].
+  apply blk_app; [|apply blk_text; reflexivity]. apply blk_of_off.
+  apply blk_off_lib_wrap_bg; [unfold clr_logger_name; lia|unfold clr_none; lia|exact Hname].
+Qed.
+
+Lemma color_record_hygienic : hygienic (color_record c msg attrs).
+Proof.
+  destruct (level_colors_ok (e_lvl c) Hcolors) as [Hc Hb].
+  destruct lines_cases as [first [rl El]].
+  unfold hygienic, color_record. cbv zeta. rewrite El. cbn [hd tl].
+  set (clr := fst (level_colors g (e_lvl c))) in *. set (bg := snd (level_colors g (e_lvl c))) in *.
+  assert (Hts0 : -1 <= clr_timestamp) by (unfold clr_timestamp; lia).
+  destruct (proj2 (blk_echo clr_timestamp Hts0) false) as [o1 E1]. rewrite E1.
+  rewrite scan_text by exact Hts. rewrite scan_text by reflexivity.
+  destruct (proj2 name_blk o1) as [o2 E2]. rewrite E2.
+  assert (Htg : text_ok (x5b :: tag_of g (e_tagw c) (e_lvl c) ++ [x5d]) = true)
+    by (rewrite text_ok_cons, text_ok_app, Htag; reflexivity).
+  assert (Hc1 : -1 <= clr) by lia.
+  rewrite (proj2 (blk_off_lib_wrap_bg clr bg _ Hc1 Hb Htg)).
+  rewrite scan_text by reflexivity.
+  assert (Hf : text_ok first = true) by (apply lines_text_ok; rewrite El; left; reflexivity).
+  assert (Hpad : text_ok (right_pad first (e_minw c)) = true) by (rewrite right_pad_eq; apply pad_to_ok; exact Hf).
+  rewrite (proj2 (blk_off_wrap (right_pad first (e_minw c)) clr bg Hc Hb Hpad)).
+  rewrite (proj2 (ser_top_blk isprint isprint_ascii clr bg Hc1 Hb attrs Hattrs)).
+  rewrite (proj2 (caller_blk isprint isprint_ascii (e_caller c) Hcaller)).
+  apply rest_part_scan; [exact Hc|exact Hb|].
+  intros l Hl. apply lines_text_ok. rewrite El. right. exact Hl.
+Qed.
+
+Lemma color_record_layout : strip_sgr (color_record c msg attrs) = layout_of isprint g c msg attrs.
+Proof.
+  destruct (level_colors_ok (e_lvl c) Hcolors) as [Hc Hb].
+  destruct lines_cases as [first [rl El]].
+  unfold color_record, layout_of. cbv zeta.
+  rewrite (surjective_pairing (msg_body msg)) at 4. rewrite El. cbn [hd tl].
+  set (clr := fst (level_colors g (e_lvl c))) in *. set (bg := snd (level_colors g (e_lvl c))) in *.
+  assert (Hts0 : -1 <= clr_timestamp) by (unfold clr_timestamp; lia).
+  rewrite (proj1 (blk_echo clr_timestamp Hts0)). rewrite app_nil_l.
+  rewrite strip_text by (apply text_ok_esc_free; exact Hts). f_equal.
+  rewrite (strip_text [x7c; x20]) by reflexivity. f_equal.
+  rewrite (proj1 name_blk). f_equal.
+  assert (Htg : text_ok (x5b :: tag_of g (e_tagw c) (e_lvl c) ++ [x5d]) = true)
+    by (rewrite text_ok_cons, text_ok_app, Htag; reflexivity).
+  assert (Hc1 : -1 <= clr) by lia.
+  rewrite (proj1 (blk_off_lib_wrap_bg clr bg _ Hc1 Hb Htg)).
+  rewrite (strip_text [x20]) by reflexivity.
+  assert (Hf : text_ok first = true) by (apply lines_text_ok; rewrite El; left; reflexivity).
+  assert (Hpad : text_ok (right_pad first (e_minw c)) = true) by (rewrite right_pad_eq; apply pad_to_ok; exact Hf).
+  rewrite (proj1 (blk_off_wrap (right_pad first (e_minw c)) clr bg Hc Hb Hpad)).
+  rewrite (proj1 (ser_top_blk isprint isprint_ascii clr bg Hc1 Hb attrs Hattrs)).
+  rewrite (proj1 (caller_blk isprint isprint_ascii (e_caller c) Hcaller)).
+  rewrite (rest_part_strip clr bg Hc Hb msg first rl _ El)
+    by (intros l Hl; apply lines_esc_free; rewrite El; right; exact Hl).
+  rewrite right_pad_eq. cbn [app]. rewrite <- !app_assoc. cbn [app]. reflexivity.
+Qed.
+End Main.
